@@ -27,17 +27,53 @@ _DESC_CACHE = {}
 FRESH_DESCRIPTORS = [False]  # checks that want an independently rebuilt descriptor object per record set this
 
 
-def descriptor(name, fields):
-    """One descriptor object per (name, fields) and process, as applications hold them (identity-keyed fast paths see the same
-    object again); FRESH_DESCRIPTORS[0] = True builds a new object every time."""
-    from flow.record import RecordDescriptor
+def _warm(d):
+    """Use a descriptor the way an application that already wrote records of it has: every lazily computed attribute is filled."""
+    d.identifier, d.descriptor_hash, hash(d), repr(d), d.fields, d.get_all_fields(), d.getfields("string"), d.recordType
+    return d
 
-    key = (name, tuple(tuple(f) for f in fields))
-    if FRESH_DESCRIPTORS[0]:
-        return RecordDescriptor(name, [tuple(f) for f in fields])
-    d = _DESC_CACHE.get(key)
-    if d is None:
-        d = _DESC_CACHE[key] = RecordDescriptor(name, [tuple(f) for f in fields])
+
+def descriptor(name, fields, via=None):
+    """One descriptor object per (name, fields, construction path) and process, as applications hold them (identity-keyed fast
+    paths see the same object again); FRESH_DESCRIPTORS[0] = True builds a new object every time.
+
+    via: how the descriptor comes into being - None: RecordDescriptor(name, fields); ["extend", k]: the first k fields are a base
+    descriptor that is in use (warm) and .extend() adds the rest; ["clone", other_name]: the deprecated RecordDescriptor(name,
+    other_descriptor) of a warm descriptor with the same fields; ["strdef"]: the deprecated string-only definition; ["unpack"]:
+    RecordDescriptor._unpack as the stream reader does; ["merge", k]: merge_record_descriptors of the first k and the remaining
+    fields. Every path must give a descriptor with exactly (name, fields)."""
+    import warnings
+
+    from flow.record import RecordDescriptor
+    from flow.record.base import merge_record_descriptors
+
+    fields = [tuple(f) for f in fields]
+    key = (name, tuple(fields), repr(via))
+    d = None if FRESH_DESCRIPTORS[0] else _DESC_CACHE.get(key)
+    if d is not None:
+        return d
+    with warnings.catch_warnings():
+        warnings.simplefilter("ignore")
+        if not via:
+            d = RecordDescriptor(name, fields)
+        elif via[0] == "extend":
+            base = _warm(descriptor(name, fields[: via[1]]))
+            d = base.extend(fields[via[1]:])
+        elif via[0] == "clone":
+            d = RecordDescriptor(name, _warm(descriptor(via[1], fields)))
+        elif via[0] == "strdef":
+            d = RecordDescriptor(name + "\n" + "\n".join("%s %s;" % f for f in fields))
+        elif via[0] == "unpack":
+            d = RecordDescriptor._unpack(name, tuple(fields))
+        elif via[0] == "merge":
+            a = _warm(descriptor(name, fields[: via[1]]))
+            b = _warm(descriptor(name + "/part", fields[via[1]:]))
+            d = merge_record_descriptors((a, b))
+        else:
+            raise ValueError(via)
+    assert (d.name, tuple(d.get_field_tuples())) == (name, tuple(fields)), (d, name, fields)
+    if not FRESH_DESCRIPTORS[0]:
+        _DESC_CACHE[key] = d
     return d
 
 
@@ -46,7 +82,7 @@ def build_record(rs):
 
     if "group" in rs:
         return GroupedRecord(rs["group"], [build_record(m) for m in rs["members"]])
-    desc = descriptor(rs["name"], rs["fields"])
+    desc = descriptor(rs["name"], rs["fields"], rs.get("via"))
     vals = [build_value(v) for v in rs.get("values", [])]
     meta = {"_generated": lit.ev(GEN)}
     for k, v in rs.get("meta", {}).items():
